@@ -480,7 +480,7 @@ def plan_c14(pid, tier, seed, ncpu):
 
     m = 1 if tier == "quick" else 10
     return dict(variants=["dbg"], jobs=jobs,
-                floors={"aging_steps_capacity_tiny": 100, "aging_steps_capacity_small": 100, "aging_steps_capacity_medium": 20 * m, "saturated_counter_events": 1000 * m,
+                floors={"aging_steps_capacity_tiny": 100, "aging_steps_capacity_small": 100, "aging_steps_capacity_medium": 20 if tier == "quick" else 50, "saturated_counter_events": 1000 * m,
                         "sketch_comparisons": 10000 * m, "sketch_gets_recorded": 1000 * m, "collision_free_estimates_checked": 10000 * m,
                         "bounded_exhaustive_sequences": 10000},
                 rule="the real FrequencySketch is driven through a facade against an exact reference (count per hash, saturating at 15, floor-halved by aging): capacities "
